@@ -53,6 +53,12 @@ prop("C08", True,
      note="Trusted: go/ssa; ANTLR tokens report 1-based lines / 0-based columns. NOT decided: that a position is the first character of the element or lies inside the file (numbers), end positions, arithmetic changes inside a getSrcCtxFor argument that still use the callback's own tokens. One known finding (re-declared event records one location; the repair changes three pinned goldens).",
      design="DESIGN.md §3 C08")
 
+prop("C09", True,
+     technique="regexp/syntax shape check of the folded JSON clean-up pattern, codec pairing and suffix tables folded from SSA constants, must-pass-through (dominance) rule for post-processing",
+     text="Thin claim — decides structural necessary conditions of the round trip: the pattern applied to the JSON encoder's bytes (folded from the package initialiser and parsed with regexp/syntax) is anchored at a line start in multi-line mode, captures optional whitespace + one quoted key + `: `, removes exactly one following space and is replaced by $1, so it cannot alter text inside a string value; each reader suffix (.pb/.pb.json/.textpb) is decoded with the codec the corresponding writer marshals with and no suffix shadows another; none of the 17 importer formats except the compiled-model format owns an extension ending in a compiled-model suffix; every successful return of the tree-walking parse function is dominated by post-processing. Both validated mutations (un-anchored regex; .json dispatched like .pb.json) are reported.",
+     note="Trusted: go/ssa constant folding, regexp/syntax; protojson escapes newlines inside strings; the three codecs invert their own Marshal. NOT decided: equality of the decoded model, well-formedness of JSON, idempotence of post-processing, determinism of the encoders (C19).",
+     design="DESIGN.md §3 C09")
+
 for i in range(1, 21):
     pid = "C%02d" % i
     if pid not in P:
